@@ -161,6 +161,10 @@ class SeqBuilder:
                     elif meth in ("extend", "clear", "pop", "remove", "reverse", "sort"):
                         raise Unknown()
             return
+        if isinstance(s, ast.Match):
+            for c in s.cases:
+                self._block(c.body, True)
+            return
         if isinstance(s, (ast.With, ast.Try)):
             self._block(s.body, cond)
             for h in getattr(s, "handlers", []) or []:
